@@ -493,4 +493,48 @@ theorem ready_without_entry_witness :
     (lcCheckReady c l (some d) 100 false).2 = .ok := by
   decide
 
+/-! ### 7. compare-and-swap retries -/
+
+/-- **a CAS retry is the handler re-run on the fresh ring**: whatever the attempts on stale values decided or
+generated, the outcome of an update is the handler applied to the LAST value read (any kind, any event). -/
+theorem cas_retry_is_rerun (c : Cfg) (l : Local) (file : File) (ev : Event) (now : Int) (gen : Gen) (fault : Fault)
+    (stale : List (Option Desc)) (fresh : Option Desc) :
+    casRetry (fun d => step c l file d ev now gen fault) (stale ++ [fresh]) = some (step c l file fresh ev now gen fault) :=
+  PfC08.casRetry_last _ stale fresh
+
+/-- … so a BasicLifecycler registration that lost the compare-and-swap (another instance registered in between)
+publishes tokens chosen against the FRESH ring: exactly `numTokens`, strictly sorted, the inherited ones kept, every new
+one in nobody's list THERE; and every other entry of the fresh ring is written back unchanged. -/
+theorem register_retry_avoids_fresh_tokens (c : Cfg) (l : Local) (file : File) (shuf : List Nat) (now : Int) (gen : Gen)
+    (fault : Fault) (stale : List (Option Desc)) (fresh : Option Desc)
+    (hk : c.kind = .BLC) (hg : GenOK gen) (hf : fault ≠ .failBefore) (hwf : WF (fresh.getD []))
+    (hnd : (blcInherited c file (Desc.get? (fresh.getD []) c.id)).Nodup)
+    (hle : (blcInherited c file (Desc.get? (fresh.getD []) c.id)).length ≤ c.numTokens) :
+    ∃ r d' b, casRetry (fun d => step c l file d (.init shuf) now gen fault) (stale ++ [fresh]) = some r ∧
+      r.out = .write d' ∧ Desc.get? d' c.id = some b ∧ b.state = c.registerState ∧
+      b.tokens.length = c.numTokens ∧ b.tokens.Pairwise (· < ·) ∧
+      (∀ t ∈ b.tokens, t ∈ blcInherited c file (Desc.get? (fresh.getD []) c.id) ∨ ∀ i ∈ fresh.getD [], t ∉ i.tokens) ∧
+      (∀ k, k ≠ c.id → Desc.get? d' k = Desc.get? (fresh.getD []) k) := by
+  obtain ⟨d', b, h1, h2, h3, h4, h5, _, h7⟩ := basic_activation_tokens c l file fresh shuf now gen fault hk hg hf hnd hle
+  refine ⟨_, d', b, cas_retry_is_rerun c l file (.init shuf) now gen fault stale fresh, h1, h2, h3, h4, h5, h7, ?_⟩
+  intro k hkk
+  rcases frame c l file fresh (.init shuf) now gen fault d' hwf h1 k hkk with h | ⟨_, _, h, _⟩ | ⟨_, _, h, _⟩
+  · exact h
+  · cases h
+  · cases h
+
+/-- witness that the guarantee is about the LAST read: an update that publishes what it computed on the first read
+(`casReuseFirst`, a seeded change of `registerInstance`) hands instance `a` the token another instance registered in
+between, although the generator honours its contract. -/
+theorem register_reuse_first_attempt_witness :
+    let c : Cfg := { kind := .BLC, id := "a", numTokens := 1 }
+    let gen : Gen := fun n taken => (List.range 8).filter (fun t => !taken.contains t) |>.take n.toNat
+    let fresh : Desc := [{ id := "b", ts := 9, state := .ACTIVE, tokens := [0], regTs := 9 }]
+    let f := fun d => step c {} .absent d (.init []) 9 gen .none
+    (casReuseFirst f "a" [none, some fresh]).map (·.out) =
+      some (.write [{ id := "a", ts := 9, state := .ACTIVE, tokens := [0], regTs := 9 }, { id := "b", ts := 9, state := .ACTIVE, tokens := [0], regTs := 9 }]) ∧
+    (casRetry f [none, some fresh]).map (·.out) =
+      some (.write [{ id := "a", ts := 9, state := .ACTIVE, tokens := [1], regTs := 9 }, { id := "b", ts := 9, state := .ACTIVE, tokens := [0], regTs := 9 }]) := by
+  decide
+
 end PC08
